@@ -9,6 +9,7 @@ import (
 	"verif/mc"
 
 	remoteexecution "github.com/bazelbuild/remote-apis/build/bazel/remote/execution/v2"
+	schedulerpb "github.com/buildbarn/bb-remote-execution/pkg/proto/configuration/scheduler"
 	"github.com/buildbarn/bb-remote-execution/pkg/scheduler/initialsizeclass"
 	"github.com/buildbarn/bb-remote-execution/pkg/scheduler/invocation"
 	"github.com/buildbarn/bb-remote-execution/pkg/scheduler/platform"
@@ -16,6 +17,7 @@ import (
 	"github.com/buildbarn/bb-storage/pkg/digest"
 	"google.golang.org/grpc/codes"
 	"google.golang.org/grpc/status"
+	"google.golang.org/protobuf/types/known/emptypb"
 )
 
 // Engine B: direct enumeration of operation sequences on the two sequential
@@ -206,8 +208,176 @@ func demuxSeq() *mc.Seq {
 	}
 }
 
+// ---------------------------------------------------------------------------
+// Platform key extraction: every implementation of platform.KeyExtractor of
+// pkg/scheduler/platform (ActionKeyExtractor, StaticKeyExtractor; obtained
+// directly and through NewKeyExtractorFromConfiguration) and the real routers
+// built from them. A platform.Key carries the INSTANCE NAME of the request
+// besides the platform; the longest-prefix lookups of C05 are made with it.
+// Oracle: the Key (resp. error) a call returns is a function of that one
+// request - NewKey(request's instance name, platform the extractor is
+// documented to use) - whatever requests the same extractor object served
+// before.
+
+var badPlatform = &remoteexecution.Platform{Properties: []*remoteexecution.Platform_Property{{Name: "os", Value: "linux"}, {Name: "arch", Value: "arm64"}}}
+
+var kxInstances = []string{"", "a", "a/b", "x"}
+
+type kxExtractor struct {
+	name string
+	ke   platform.KeyExtractor
+	// fixed: the platform a static extractor was created with ("" for an
+	// extractor that reads the Action).
+	fixed string
+}
+
+type kxState struct {
+	exts []*kxExtractor
+	// rewrite: demultiplexing on the Action's platform, with platform
+	// rewriting routers registered for P2 (-> P1 below "", -> Pa below "a").
+	rewrite *routing.DemultiplexingActionRouter
+	// byInstance: a StaticKeyExtractor as the demultiplexing extractor
+	// itself, so that only the instance name selects the backend.
+	byInstance *routing.DemultiplexingActionRouter
+	hist       []string
+}
+
+func kxPlatform(name string) *remoteexecution.Platform {
+	if name == "bad" {
+		return badPlatform
+	}
+	return platforms[name]
+}
+
+func newKxState() *kxState {
+	st := &kxState{}
+	fromCfg := func(c *schedulerpb.PlatformKeyExtractorConfiguration) platform.KeyExtractor {
+		ke, err := platform.NewKeyExtractorFromConfiguration(c, nil)
+		if err != nil {
+			panic(err)
+		}
+		return ke
+	}
+	st.exts = []*kxExtractor{
+		{name: "action", ke: platform.ActionKeyExtractor},
+		{name: "cfg-action", ke: fromCfg(&schedulerpb.PlatformKeyExtractorConfiguration{Kind: &schedulerpb.PlatformKeyExtractorConfiguration_Action{Action: &emptypb.Empty{}}})},
+		{name: "static(P1)", ke: platform.NewStaticKeyExtractor(platforms["P1"]), fixed: "P1"},
+		{name: "static(P2)", ke: platform.NewStaticKeyExtractor(platforms["P2"]), fixed: "P2"},
+		{name: "cfg-static(P1)", ke: fromCfg(&schedulerpb.PlatformKeyExtractorConfiguration{Kind: &schedulerpb.PlatformKeyExtractorConfiguration_Static{Static: platforms["P1"]}}), fixed: "P1"},
+		{name: "static(bad)", ke: platform.NewStaticKeyExtractor(badPlatform), fixed: "bad"},
+	}
+	simple := func(ke platform.KeyExtractor) routing.ActionRouter {
+		return routing.NewSimpleActionRouter(ke, nil, scriptedAnalyzer{})
+	}
+	st.rewrite = routing.NewDemultiplexingActionRouter(platform.ActionKeyExtractor, simple(platform.ActionKeyExtractor))
+	if err := st.rewrite.RegisterActionRouter(mustInst(""), platforms["P2"], simple(platform.NewStaticKeyExtractor(platforms["P1"]))); err != nil {
+		panic(err)
+	}
+	if err := st.rewrite.RegisterActionRouter(mustInst("a"), platforms["P2"], simple(platform.NewStaticKeyExtractor(platforms["Pa"]))); err != nil {
+		panic(err)
+	}
+	st.byInstance = routing.NewDemultiplexingActionRouter(platform.NewStaticKeyExtractor(platforms["P2"]), tagRouter{"default"})
+	for _, p := range []string{"a", "x"} {
+		if err := st.byInstance.RegisterActionRouter(mustInst(p), platforms["P2"], tagRouter{"backend:" + p}); err != nil {
+			panic(err)
+		}
+	}
+	return st
+}
+
+// kxCompare checks one returned key against NewKey(inst, want platform).
+func kxCompare(c *mc.SeqCtx, st *kxState, fp, what, inst, wantPlat string, got platform.Key, err error) {
+	want, wantErr := platform.NewKey(mustInst(inst), kxPlatform(wantPlat))
+	switch {
+	case status.Code(err) != status.Code(wantErr):
+		c.FailP("C05", fp+"/error", "after %v: %s for instance name %q returned error %v, a first call with this request returns %v", st.hist, what, inst, err, wantErr)
+	case err != nil:
+	case got.GetInstanceNamePrefix().String() != inst:
+		c.FailP("C05", fp+"/instance-name", "after %v: %s for a request with instance name %q returned a platform key for instance name %q (platform %s): the request would be queued under the wrong instance name prefix", st.hist, what, inst, got.GetInstanceNamePrefix().String(), got.GetPlatformString())
+	case got != want:
+		c.FailP("C05", fp+"/platform", "after %v: %s for instance name %q returned platform %s, want %s", st.hist, what, inst, got.GetPlatformString(), want.GetPlatformString())
+	}
+}
+
+func keyExtractorSeq() *mc.Seq {
+	var ops []mc.SeqOp
+	ctx := context.Background()
+	df := func(inst string) digest.Function {
+		return digest.MustNewFunction(inst, remoteexecution.DigestFunction_SHA256)
+	}
+	proto := newKxState()
+	for ei, e := range proto.exts {
+		ei, e := ei, e
+		aps := []string{"P2"}
+		if e.fixed == "" {
+			aps = []string{"P1", "P2", "bad"}
+		}
+		for _, inst := range kxInstances {
+			for _, ap := range aps {
+				inst, ap := inst, ap
+				name := fmt.Sprintf("%s.ExtractKey(%q,%s)", e.name, inst, ap)
+				ops = append(ops, mc.SeqOp{Name: name, Do: func(c *mc.SeqCtx, s any) {
+					st := s.(*kxState)
+					st.hist = append(st.hist, name)
+					want := st.exts[ei].fixed
+					if want == "" {
+						want = ap
+					}
+					got, err := st.exts[ei].ke.ExtractKey(ctx, df(inst), &remoteexecution.Action{Platform: kxPlatform(ap)})
+					kxCompare(c, st, "key-extractor", name, inst, want, got, err)
+				}})
+			}
+		}
+	}
+	for _, inst := range kxInstances {
+		for _, ap := range []string{"P1", "P2"} {
+			inst, ap := inst, ap
+			name := fmt.Sprintf("rewrite.RouteAction(%q,%s)", inst, ap)
+			ops = append(ops, mc.SeqOp{Name: name, Do: func(c *mc.SeqCtx, s any) {
+				st := s.(*kxState)
+				st.hist = append(st.hist, name)
+				// Reference: the router registered for the longest prefix
+				// of (instance name, Action's platform) decides the platform.
+				want := ap
+				if ap == "P2" {
+					want = "P1"
+					if instancePrefixOf("a", inst) {
+						want = "Pa"
+					}
+				}
+				_, got, _, _, err := st.rewrite.RouteAction(ctx, df(inst), &remoteexecution.Action{Platform: kxPlatform(ap)}, nil)
+				kxCompare(c, st, "route-rewrite", name, inst, want, got, err)
+			}})
+		}
+		name := fmt.Sprintf("byInstance.RouteAction(%q)", inst)
+		ops = append(ops, mc.SeqOp{Name: name, Do: func(c *mc.SeqCtx, s any) {
+			st := s.(*kxState)
+			st.hist = append(st.hist, name)
+			want := "default"
+			for _, p := range []string{"a", "x"} {
+				if instancePrefixOf(p, inst) {
+					want = "backend:" + p
+				}
+			}
+			_, _, keys, _, err := st.byInstance.RouteAction(ctx, df(inst), &remoteexecution.Action{Platform: platforms["P1"]}, nil)
+			if err != nil || len(keys) != 1 || string(keys[0]) != want {
+				c.FailP("C05", "route-by-instance", "after %v: request for instance name %q was routed to %v (err %v) by a demultiplexing router keyed with a static platform, the router with the longest registered prefix is %s", st.hist, inst, keys, err, want)
+			}
+		}})
+	}
+	return &mc.Seq{
+		Name: "c05-keyextract", Props: []string{"C05"}, Panics: []string{"C05"},
+		New: func(c *mc.SeqCtx) any { return newKxState() },
+		Ops: ops,
+		// No merging: the internal state of the extractors is not
+		// observable, every sequence up to the depth is executed.
+		Key:   func(s any) string { return strings.Join(s.(*kxState).hist, ",") },
+		Depth: map[string]int{"quick": 3, "thorough": 4},
+	}
+}
+
 func seqs() []*mc.Seq {
-	l := []*mc.Seq{trieSeq(), demuxSeq()}
+	l := []*mc.Seq{trieSeq(), demuxSeq(), keyExtractorSeq()}
 	sort.Slice(l, func(i, j int) bool { return l[i].Name < l[j].Name })
 	return l
 }
